@@ -6,6 +6,7 @@ import (
 	"encoding/json"
 	"fmt"
 	"os"
+	"strings"
 	"testing"
 	"testing/synctest"
 	"time"
@@ -18,13 +19,13 @@ import (
 
 // the marked host is h2; h1 is (usually) the recorded master, h3 a bystander
 type c11In struct {
-	Rel      string    `json:"rel"`      // my transactions vs the master's: behind | equal | ahead | diverged
-	Repl     string    `json:"repl"`     // none (no channel) | running | stopped | error
+	Rel      string    `json:"rel"`  // my transactions vs the master's: behind | equal | ahead | diverged
+	Repl     string    `json:"repl"` // none (no channel) | running | stopped | error
 	RO       bool      `json:"ro"`
-	Stuck    int       `json:"stuck"`    // commits waiting for a semi-sync ACK
-	Resetup  bool      `json:"resetup"`  // resetup file already there
+	Stuck    int       `json:"stuck"`   // commits waiting for a semi-sync ACK
+	Resetup  bool      `json:"resetup"` // resetup file already there
 	Marked   bool      `json:"marked"`
-	Master   string    `json:"master"`   // h1 | h2 | "" | h9
+	Master   string    `json:"master"` // h1 | h2 | "" | h9
 	Ticks    int       `json:"ticks"`
 	Gap      int       `json:"gap_s"`
 	Fault    *vk.Fault `json:"fault"`
@@ -33,14 +34,14 @@ type c11In struct {
 	FixAt    int       `json:"fix_at"` // >0: before this tick the manager repairs the host (read-only replica of h1, caught up)
 }
 type c11Step struct {
-	Trans      []vk.Entry
-	Panic      string
-	MemBefore  string
+	Trans                   []vk.Entry
+	Panic                   string
+	MemBefore               string
 	StuckBefore, StuckAfter int64
-	T0         int64
-	FileBefore, FileAfter bool
-	MarkBefore, MarkAfter bool
-	Before, After map[string]vk.Node
+	T0                      int64
+	FileBefore, FileAfter   bool
+	MarkBefore, MarkAfter   bool
+	Before, After           map[string]vk.Node
 }
 type c11Out struct {
 	Steps []c11Step
@@ -518,7 +519,7 @@ func TestVerifC11Stale(t *testing.T) {
 	if vk.ReplayInput(&rp) && rp.Stale != nil {
 		var stale []string
 		for i, c := range rp.Stale.Nodes {
-			if i > 0 && c.Source == "" && !c.Down && !c.Unregistered && c.Cascade == "" {
+			if i > 0 && c.Source == "" && !c.Down && !c.Unregistered {
 				stale = append(stale, fmt.Sprintf("h%d", i+1))
 			}
 		}
@@ -528,16 +529,26 @@ func TestVerifC11Stale(t *testing.T) {
 	}
 	for _, n := range []int{3, 4} {
 		for _, extra := range []string{"", "1-7"} {
-			for _, ro := range []bool{false, true} {
+			for _, roc := range []string{"rw", "ro", "rw/cascade", "ro/cascade"} {
+				// "cascade": the stale master is registered as a cascade replica (restored from a backup, promoted by hand)
+				ro, casc := strings.HasPrefix(roc, "ro"), ""
+				if strings.HasSuffix(roc, "cascade") {
+					casc = "h3"
+				}
 				in := c10In{Passes: 3, Gap: 5, MaxAttempts: 3}
 				in.Nodes = append(in.Nodes, c10Node{Source: "", SemiSync: "none", Exec: "1-100"})
-				in.Nodes = append(in.Nodes, c10Node{RO: ro, Source: "", SemiSync: "none", Exec: "1-100", Extra: extra}) // h2: the stale master
+				in.Nodes = append(in.Nodes, c10Node{RO: ro, Source: "", SemiSync: "none", Exec: "1-100", Extra: extra, Cascade: casc}) // h2: the stale master
 				for i := 3; i <= n; i++ {
 					in.Nodes = append(in.Nodes, c10Node{RO: true, Source: "h1", Threads: "running", SemiSync: "none", Exec: "1-100"})
 				}
 				base := run(in)
 				check(in, base, []string{"h2"})
 				m.Count("stale_master_scenarios")
+				if casc != "" {
+					// a cascade replica whose state could not be read is re-pointed blindly (and so stops claiming to be
+					// master) before it was ever FOUND claiming: the clause speaks of hosts found claiming; fault-free only
+					continue
+				}
 				// every statement and coordination call of the first pass that concerns h2 fails once
 				seen := map[string]int{}
 				for _, e := range base.Passes[0].Trans {
